@@ -2027,6 +2027,33 @@ func (e *sched) protoCall(states []*sState, call *ssa.Call) ([]*sState, bool) {
 		return nil, false
 	}
 	cal := call.Call.StaticCallee()
+	// a hand-written full read of the random source is used through the contract of io.ReadFull (readhelper.go)
+	if h := fullReadHelper(cal); h != nil && len(call.Call.Args) == len(cal.Params) {
+		d.readHelpers[e.p.FuncName(cal)] = h.why
+		var out2 []*sState
+		for _, st := range states {
+			var args []sVal
+			for _, a := range call.Call.Args {
+				args = append(args, e.get(st, a))
+			}
+			d.readHelperShape = true
+			handled, extra := d.call(st, call, "io.ReadFull", []sVal{args[h.rd], args[h.buf]})
+			d.readHelperShape = false
+			if !handled {
+				e.fail("full-read helper %s at %s could not be applied", cal.Name(), e.p.InstrPos(call))
+			}
+			for _, s2 := range append([]*sState{st}, extra...) {
+				// the helper returns the error alone
+				if tup, ok := s2.vals[call].([]sVal); ok && len(tup) == 2 {
+					s2.vals[call] = tup[1]
+				}
+				if !s2.dead {
+					out2 = append(out2, s2)
+				}
+			}
+		}
+		return out2, true
+	}
 	var out []*sState
 	anyHandled := false
 	for _, st := range states {
